@@ -69,11 +69,11 @@ def plan(tier, seed):
         for sh in range(12):
             cases.append({"base": "frame", "shard": [sh, 12], "backend": "polars", "tier": tier, "mode": "list"})
     else:
-        for b, nsh in (("frame", 64), ("series", 8), ("column", 8)):
+        for b, nsh in (("frame", 256), ("series", 32), ("column", 32)):
             for sh in range(nsh):
                 cases.append({"base": b, "ks": 1, "kd": 2, "shard": [sh, nsh], "backend": "pandas", "tier": tier, "mode": "space"})
-        for sh in range(32):
-            cases.append({"base": "frame", "ks": 1, "kd": 2, "shard": [sh, 32], "backend": "polars", "tier": tier, "mode": "space"})
+        for sh in range(128):
+            cases.append({"base": "frame", "ks": 1, "kd": 2, "shard": [sh, 128], "backend": "polars", "tier": tier, "mode": "space"})
     return {"cases": cases, "exhaustive": True,
             "bounds": {"rows": "<= 4 (3 + duplicated row)",
                        "options": ("head, tail, sample each in {None, 0..len}; random_state in {0,1,2}" if tier == "thorough"
